@@ -44,11 +44,17 @@ Definition fresh (w : world) : val * world :=
 (* ------------------------------------------------------------------ rendering (vsupport.cr) *)
 Definition nat2s (n : nat) : string := n2s (N.of_nat n).
 
+(* repr of a str: double quotes when the text has an apostrophe and no double quote (escapes are not modelled) *)
+Fixpoint has_ascii (c : Ascii.ascii) (s : string) : bool :=
+  match s with EmptyString => false | String a r => Ascii.eqb a c || has_ascii c r end.
+Definition py_repr_str (s : string) : string :=
+  if has_ascii "'"%char s && negb (has_ascii """"%char s) then ("""" ++ s ++ """")%string else ("'" ++ s ++ "'")%string.
+
 Fixpoint show (fn : list string) (v : val) : string :=
   match v with
   | VNone => "None" | VBool true => "True" | VBool false => "False"
   | VInt z => z2s z
-  | VStr s => ("'" ++ s ++ "'")%string
+  | VStr s => py_repr_str s
   | VFloat t => ("float:" ++ t)%string
   | VRec i => ("R" ++ nat2s i)%string
   | VList l => ("[" ++ sjoin "," (map (show fn) l) ++ "]")%string
